@@ -25,7 +25,7 @@ import warnings
 
 from vlib import tlc
 from vlib.comp import plan_walks
-from vlib.obsharness import fan_out, validate_batch, corrupt_check
+from vlib.obsharness import fan_out, validate_batch, validate_with_selftest, PROCS
 
 warnings.filterwarnings("ignore")
 
@@ -422,6 +422,15 @@ def dec_list(recs, schema):
     return out
 
 
+def guarded(fn):
+    """An exception while producing one artefact (e.g. decoding) becomes the content of that
+    artefact, so that the trace spec rejects it under the artefact's own clause name."""
+    try:
+        return fn()
+    except Exception as ex:
+        return [[-1, -1, [["exception", f"{type(ex).__name__}: {ex}"[:200]]]]]
+
+
 def schema_list(schema):
     return [[s.event_name, [[f.name, f.width, bool(f.signed)] for f in s.fields],
              [[k, typed(v)] for k, v in s.statics.items()]] for s in schema.sites]
@@ -466,24 +475,25 @@ def run_pysim(cfg, stim, seed=0, consumer=True):
     lines = _lines(ck, flat, stim, cycles_seen, runs_seen) if cfg["enabled"] else [
         {"cycle": c, "sig": {}, "sites": []} for c in cycles_seen]
     tr = {"cfg": {"sites": sites}, "design": cfg, "kind": "pysim", "lines": lines,
-          "raw": {"captured": raw_list(log.raw)}, "dec": {"decoded": dec_list(log.decoded(), log.schema)},
+          "raw": {"captured": raw_list(log.raw)},
+          "dec": {"decoded": guarded(lambda: dec_list(log.decoded(), log.schema))},
           "schema": {"captured": schema_list(log.schema)}}
     with tempfile.TemporaryDirectory(prefix="c33_") as d:
         p1, p2 = os.path.join(d, "a.jsonl"), os.path.join(d, "b.jsonl")
         log.save(p1)
         loaded = EventLog.load(p1)
         tr["raw"]["loaded"] = raw_list(loaded.raw)
-        tr["dec"]["loaded_decoded"] = dec_list(loaded.decoded(), loaded.schema)
+        tr["dec"]["loaded_decoded"] = guarded(lambda: dec_list(loaded.decoded(), loaded.schema))
         tr["schema"]["loaded"] = schema_list(loaded.schema)
         reader = EventLogReader(p1)
-        tr["dec"]["reader"] = dec_list(list(reader), reader.schema)
+        tr["dec"]["reader"] = guarded(lambda: dec_list(list(reader), reader.schema))
         tr["schema"]["reader"] = schema_list(reader.schema)
         with EventLogWriter(p2, log.schema) as wr:          # streaming writer fed record by record
             for c, s, vals in log.raw:
                 wr.emit_raw(c, s, vals)
         tr["raw"]["writer"] = raw_list(EventLog.load(p2).raw)
         tr["meta_ok"] = bool(loaded.schema.metadata == {"seed": seed} and loaded.schema == log.schema)
-    if consumer:
+    if consumer and not any(r[0] == -1 for r in tr["dec"]["decoded"]):
         recs = log.decoded()
         perm = list(range(len(recs)))
         random.Random(seed).shuffle(perm)
@@ -539,7 +549,12 @@ def run_generated(cfg, stim, seed=0):
     with DependencyContext(dm_a):
         design = frag_a.prepare(ports=ports_a)
         _, name_map = rtlil.convert_fragment(design, name="top", emit_src=False)
-        gen = wrap_a.collect_evlog(name_map)
+        try:
+            gen = wrap_a.collect_evlog(name_map)
+        except KeyError as ex:
+            # an exposed event signal has no location in the backend's name map: generate_verilog
+            # would die here with the same KeyError
+            return {"kind": "generated", "design": dict(cfg), "build_error": f"collect_evlog: KeyError {ex}"}
     gen = GeneratedEvLog.from_dict(json.loads(json.dumps(gen.to_dict())))      # as stored in GenerationInfo
     pos = {}
     for k, (_, trig, fields) in enumerate(wrap_a.evlog_records):
@@ -588,7 +603,7 @@ def run_generated(cfg, stim, seed=0):
             "has_packed": gen.triggers_location is not None,
             "lines": _lines(ck, flat, stim, cycles_seen, runs_seen),
             "raw": {"sampler_packed": raw_list(packed_sink.raw), "sampler_persite": raw_list(site_sink.raw)},
-            "dec": {"sampler_decoded": dec_list(packed_sink.decoded(), packed_sink.schema)},
+            "dec": {"sampler_decoded": guarded(lambda: dec_list(packed_sink.decoded(), packed_sink.schema))},
             "schema": {"generated": schema_list(gen.schema)}}
 
 
@@ -603,13 +618,22 @@ def record(seed, cycles, kind, port_fields="", enabled=True):
     idle = copy.deepcopy(stim[-1])
     for k in ("en_t0", "en_t1", "en_ca", "en_cb"):
         idle[k] = 0
-    for s in idle["sites"]:
-        s["when"] = 0
+    for s, sd in zip(idle["sites"], [x for c in cfg["containers"] for x in c["sites"]]):
+        if sd["whenw"]:
+            s["when"] = 0
     stim.append(idle)
     tr = run_pysim(cfg, stim, seed) if kind == "pysim" else run_generated(cfg, stim, seed)
     tr["seed"] = seed
     tr["stim"] = stim
     return tr
+
+
+def report_build_error(rep, tr):
+    rep.violation({"component": "GeneratedEvLogSampler/VerilogDebugWrapper",
+                   "cfg": {"kind": "generated", "port_fields": tr["design"]["port_fields"], "enabled": True,
+                           "design": tr["design"]},
+                   "clauses": ["GeneratedDesignBuild"], "what": tr["build_error"], "seed": tr.get("seed"),
+                   "schedule": tr.get("stim", [])[:1]})
 
 
 def replay_chunk(walks):
@@ -665,7 +689,7 @@ def report_rejects(rep, traces, rej):
                        "schedule": tr.get("stim", [])[:ln]})
 
 
-def self_test(rep, traces, rng):
+def corrupted_traces(traces, rng):
     cor = []
     pys = [t for t in traces if t["kind"] == "pysim" and len(t["raw"]["captured"]) >= 3]
     gens = [t for t in traces if t["kind"] == "generated" and len(t["raw"]["sampler_packed"]) >= 3]
@@ -713,14 +737,14 @@ def self_test(rep, traces, rng):
                 continue
             rng.choice(c)[1][0][1] += 1
         cor.append((t, None, what))
-    corrupt_check("EvLogTrace", cor, rep, "selftest")
+    return cor
 
 
 def run(rep):
     thorough = rep.tier == "thorough"
     depth = "4" if thorough else "3"
     # 1. exhaustive model
-    res = tlc.run("EvLogMC", MC_FULL, env={"EVLOG_DEPTH": depth}, workers="auto" if thorough else 4, timeout=1500)
+    res = tlc.run("EvLogMC", MC_FULL, env={"EVLOG_DEPTH": depth}, workers=min(PROCS, 8), timeout=1500)
     if res.invariant_violated:
         rep.violation({"component": "EvLog model", "what": f"model violates {res.invariant_violated}",
                        "clauses": ["MC:" + res.invariant_violated], "tlc_tail": res.out.splitlines()[-60:]})
@@ -763,17 +787,26 @@ def run(rep):
         seed = rep.seed * 100003 + i
         tasks.append((__name__, "record", (seed, cycles, "pysim")))
         tasks.append((__name__, "record", (seed, cycles, "generated")))
-    tasks.append((__name__, "record", (rep.seed * 100003 + 9001, 30, "pysim", False, False)))    # evlog disabled
-    for i in range(6 if thorough else 2):                                                      # fields = input ports
-        tasks.append((__name__, "record", (rep.seed * 100003 + 9100 + i, cycles, "generated", True)))
+    tasks.append((__name__, "record", (rep.seed * 100003 + 9001, 30, "pysim", "", False)))    # evlog disabled
+    # probes of the generated-design path: event fields that are undriven harness inputs (top-level
+    # ports, like test_evlog.GenTestCircuit) / signals driven only through TModule's top_comb
+    for i in range(4 if thorough else 1):
+        tasks.append((__name__, "record", (rep.seed * 100003 + 9100 + i, cycles, "generated", "input")))
+        tasks.append((__name__, "record", (rep.seed * 100003 + 9200 + i, cycles, "generated", "top_comb")))
     traces = []
     for (tr, err), t in zip(fan_out(tasks), tasks):
         if err:
-            rep.violation({"component": "evlog harness", "cfg": {"task": list(t[2])}, "clauses": ["BuildOrRunException"],
-                           "what": err[-1500:]})
+            a = list(t[2]) + ["", True]
+            rep.violation({"component": "GeneratedEvLogSampler/VerilogDebugWrapper" if a[2] == "generated" else "evlog harness",
+                           "cfg": {"kind": a[2], "port_fields": a[3], "seed": a[0], "cycles": a[1]},
+                           "clauses": ["BuildOrRunException"], "what": err[-1500:]})
+        elif "build_error" in tr:
+            report_build_error(rep, tr)
         else:
             traces.append(tr)
-    rej, vres = validate_batch("EvLogTrace", [strip(t) for t in traces])
+    good = [t for t in traces if not t["design"]["port_fields"]]
+    rej, vres = validate_with_selftest("EvLogTrace", [strip(t) for t in traces],
+                                       corrupted_traces(good, random.Random(rep.seed)), rep)
     rep.add("traces_validated_against_impl", len(traces))
     rep.add("trace_states", vres.distinct)
     report_rejects(rep, traces, rej)
@@ -795,7 +828,6 @@ def run(rep):
     rep.add("impl_designs", len({t["seed"] for t in traces}))
     rep.coverage["generated_name_map"] = sorted({t.get("name_map") for t in traces if t["kind"] == "generated"})
     rep.coverage["generated_runs_with_packed_triggers"] = sum(1 for t in traces if t.get("has_packed"))
-    self_test(rep, traces, random.Random(rep.seed))
     t0 = traces[0]
     rep.sample({"kind": "impl-trace", "sites": [(s["ev"], s["ctx"]) for s in t0["cfg"]["sites"]],
                 "first_line": t0["lines"][0], "first_records": t0["raw"]["captured"][:3]})
@@ -827,6 +859,9 @@ def replay(rep, path):
         tr = run_pysim(design, stim, d.get("seed") or 0)
     tr["seed"] = d.get("seed")
     tr["stim"] = stim
+    if "build_error" in tr:
+        report_build_error(rep, tr)
+        return
     rej, _ = validate_batch("EvLogTrace", [strip(tr)])
     rep.add("traces_validated_against_impl", 1)
     report_rejects(rep, [tr], rej)
